@@ -216,9 +216,9 @@ func c10exec(j run.Job, a *run.Acc) {
 			fs.AddFile(text.NewFile(fmt.Sprintf("p%d", i), make([]byte, n)))
 		}
 		f := text.NewFile("f", []byte(raw.String()))
-		fs.AddFile(f)
+		rd0 := placeFile(fs, f, it%2 == 1)
 		base := int(f.Pos(0))
-		ctx := parsley.NewContext(fs, text.NewReader(f))
+		ctx := parsley.NewContext(fs, rd0)
 		d := map[string]any{"input": in, "tokens": toks, "base_offset": base}
 
 		if j.Family == "repeat" && rep > 0 {
